@@ -263,6 +263,7 @@ void ezc3d::ParametersNS::Parameters::write(std::fstream &f) const
     nBlocksToNext = int(actualPos)/512;
     if (int(actualPos) % 512 > 0)
         ++nBlocksToNext;
+    ++nBlocksToNext; // DATA_START is the 1-based number of the first data block
     f.write(reinterpret_cast<const char*>(&nBlocksToNext), ezc3d::BYTE);
     f.seekg(actualPos);
 }
